@@ -285,15 +285,15 @@ func main() {
 	repDevs := [][]string{{"vendor.com/class=dev0"}, {"vendor.com/class=dev0", "v/c=1", "vendor.com/class=dev2"}, {"vendor.com/class=dev0", "dev"}}
 	// (A) character classes in every position of short plugin / id strings
 	parts := stringsUpTo(classAlphabet, K)
-	for _, p := range parts {
-		for _, id := range parts {
-			for _, mk := range mapKinds {
-				for di, d := range repDevs {
-					if di > 0 && (mk.name == "foreign" || mk.name == "mixed") {
-						continue
-					}
-					cases = append(cases, Case{Kind: "update", Map: mk.m, MapKind: mk.name, Plugin: []byte(p), ID: []byte(id), Devices: d})
+	// (streamed below by index: tens of millions of cases in the thorough tier)
+	partA := func(k int64, visit func(Case)) {
+		p, id := parts[k/int64(len(parts))], parts[k%int64(len(parts))]
+		for _, mk := range mapKinds {
+			for di, d := range repDevs {
+				if di > 0 && (mk.name == "foreign" || mk.name == "mixed") {
+					continue
 				}
+				visit(Case{Kind: "update", Map: mk.m, MapKind: mk.name, Plugin: []byte(p), ID: []byte(id), Devices: d})
 			}
 		}
 	}
@@ -374,8 +374,7 @@ func main() {
 		"(D) ParseAnnotations on every map of <=%d entries over %d keys x %d values. Oracle: independent Kubernetes annotation-key rule, parse-back through ParseAnnotations, map before/after comparison. Cases distinct by construction; non-trivial = the call reached a verdict (added, error class, parsed with >=1 CDI key)",
 		K, len(classAlphabet), classAlphabet, len(deviceAlphabet), map[bool]int{false: 2, true: 3}[r.Thorough()], len(keyDomain), len(values))
 	r.Assumptions = []string{"no completeness oracle: the statement lets the helper refuse a request, so only what it does on success/failure is judged", "plugin/id strings longer than the enumerated ones behave like the (B) padding family"}
-	r.ParallelL(int64(len(cases)), func(i int64, l *hx.Local) {
-		c := cases[i]
+	record := func(l *hx.Local, c Case) {
 		var res hx.Result
 		if c.Kind == "parse" {
 			res = evalParse(c)
@@ -383,6 +382,10 @@ func main() {
 			res = evalUpdate(c)
 		}
 		l.Record(res, func() any { return map[string]any{"case": c, "outcome": res.Outcome} })
+	}
+	r.ParallelL(int64(len(parts))*int64(len(parts)), func(k int64, l *hx.Local) {
+		partA(k, func(c Case) { record(l, c) })
 	})
+	r.ParallelL(int64(len(cases)), func(i int64, l *hx.Local) { record(l, cases[i]) })
 	r.Finish()
 }
